@@ -114,6 +114,56 @@ func H_R2_CollectDEXRevenue() {
 	vrf.Assert(sdkmath.LegacyNewDecFromInt(gain).GTE(credited), "C13-R2: funds kept by masterchef >= LP portion credited for the pool")
 }
 
+// R2a over two pools with revenue: what is recorded for the pools adds up to at most what masterchef keeps, and each
+// pool's figure is its own LP portion (not a running total over the pools iterated before it).
+//
+//vrf:cover collected
+//vrf:bound 2 amm pools with symbolic revenue (uusdc) >= 0 at their revenue addresses; LP/staker/provider portions symbolic within Params.Validate()
+//vrf:assert-ms 60000
+func H_R2_CollectDEXRevenue_TwoPools() {
+	env := base()
+	ctx := env.Ctx
+	mp := symParams(env)
+	pool1(env)
+	p2, _ := env.Amm.GetPool(ctx, 1)
+	p2.PoolId, p2.Address, p2.RebalanceTreasury = 2, ammtypes.NewPoolAddress(2).String(), ammtypes.NewPoolRebalanceTreasury(2).String()
+	p2.TotalShares.Denom = ammtypes.GetPoolShareDenom(2)
+	env.Amm.SetPool(ctx, p2)
+	r1, r2 := vrf.Int("poolRevenue"), vrf.Int("poolRevenue2")
+	vrf.Assume(!r1.IsNegative())
+	vrf.Assume(!r2.IsNegative())
+	vrf.Assume(r1.LTE(sdkmath.NewIntWithDecimal(1, 30)))
+	vrf.Assume(r2.LTE(sdkmath.NewIntWithDecimal(1, 30)))
+	env.W.SetBal(revenue1, usdc, r1)
+	env.W.SetBal(ammtypes.NewPoolRevenueAddress(2), usdc, r2)
+	env.W.SetBal(mcAddr, usdc, sdkmath.ZeroInt())
+	panicked := true
+	var err error
+	var perPool map[uint64]sdkmath.LegacyDec
+	func() {
+		defer func() { recover() }()
+		_, _, perPool, err = env.Mc.CollectDEXRevenue(ctx)
+		panicked = false
+	}()
+	vrf.Assert(!panicked, "C18/C13: CollectDEXRevenue never panics (it runs in the end blocker)")
+	if panicked || err != nil {
+		vrf.Assert(err == nil, "C18/C13: CollectDEXRevenue never fails (its error is returned by the end blocker)")
+		return
+	}
+	vrf.Cover("collected")
+	get := func(id uint64) sdkmath.LegacyDec {
+		if v, ok := perPool[id]; ok {
+			return v
+		}
+		return sdkmath.LegacyZeroDec()
+	}
+	gain := env.W.BalOf(mcAddr, usdc)
+	vrf.Assert(sdkmath.LegacyNewDecFromInt(gain).GTE(get(1).Add(get(2))), "C13-R2: funds kept by masterchef >= the LP portions recorded for all pools together")
+	// each pool's figure is at most the LP portion of its own revenue
+	vrf.Assert(get(1).LTE(mp.RewardPortionForLps.MulInt(r1)), "C13-R2: pool 1 is credited at most the LP portion of its own revenue")
+	vrf.Assert(get(2).LTE(mp.RewardPortionForLps.MulInt(r2)), "C13-R2: pool 2 is credited at most the LP portion of its own revenue")
+}
+
 // R2b: CollectGasFees (fee collector holds uusdc).
 //
 //vrf:cover collected
